@@ -295,7 +295,7 @@ type choice struct {
 }
 
 func (c choice) String() string {
-	return fmt.Sprintf("%s(%d,%d)", []string{"append", "maybeAppend", "handout", "persist", "ack", "commit", "apply", "compact", "restore", "staleack"}[c.op], c.a, c.b)
+	return fmt.Sprintf("%s(%d,%d)", []string{"append", "maybeAppend", "handout", "persist", "ack", "commit", "apply", "compact", "restore", "staleack", "stalesnap"}[c.op], c.a, c.b)
 }
 
 func (s *lsys) pendingSnapshot() bool {
@@ -513,8 +513,11 @@ func (s *lsys) do(c choice) bool {
 		m.sBaseI, m.sBaseT = i, t
 		s.logf("compact %d", i)
 		s.stats["compactions"]++
-	case 8: // incoming snapshot beyond commit: a = distance above commit
-		if s.pendingSnapshot() {
+	case 8: // incoming snapshot beyond commit: a = distance above commit (also while an earlier snapshot is still being persisted)
+		if s.l.HasNextOrInProgressSnapshot() && len(s.q) == 0 {
+			return false // never handed out: nothing in flight that could be acknowledged late
+		}
+		if len(s.q) > 3 {
 			return false
 		}
 		i := m.committed + 1 + uint64(c.a)
@@ -527,6 +530,29 @@ func (s *lsys) do(c choice) bool {
 		m.handed = i
 		s.logf("restore snapshot (%d,%d)", i, m.curTerm)
 		s.stats["restores"]++
+	case 10: // installing a snapshot that storage already covers must be refused and change nothing
+		if m.sBaseI == 0 {
+			return false
+		}
+		idx := m.sBaseI
+		if c.a == 1 && idx > 1 {
+			idx--
+		}
+		sn := &pb.Snapshot{Metadata: &pb.SnapshotMetadata{Index: new(idx), Term: new(m.sBaseT), ConfState: &pb.ConfState{Voters: []uint64{1}}}}
+		if err := s.ms.ApplySnapshot(sn); err != raft.ErrSnapOutOfDate {
+			s.fail("ApplySnapshot(index %d) on storage whose snapshot is at %d returned %v, want ErrSnapOutOfDate", idx, m.sBaseI, err)
+			return true
+		}
+		if _, err := s.ms.CreateSnapshot(idx, nil, nil); err != raft.ErrSnapOutOfDate {
+			s.fail("CreateSnapshot(index %d) on storage whose snapshot is at %d returned %v, want ErrSnapOutOfDate", idx, m.sBaseI, err)
+			return true
+		}
+		if err := s.ms.Compact(idx); err != raft.ErrCompacted {
+			s.fail("Compact(%d) on storage compacted at %d returned %v, want ErrCompacted", idx, m.sBaseI, err)
+			return true
+		}
+		s.logf("stale snapshot install/create/compact at %d refused", idx)
+		s.stats["stale-snapshot-ops"]++
 	case 9: // acknowledgement for something that is not (or no longer) unstable: must be ignored
 		idx := m.baseI + uint64(c.a)
 		l.StableTo(idx, 99999)
@@ -564,7 +590,7 @@ var logMenu = []choice{
 	{1, 0, 0}, {1, 0, 1}, {1, 0, 2}, {1, 1, 0}, {1, 1, 1}, {1, 1, 2}, {1, 2, 1}, {1, 2, 2},
 	{2, 0, 0}, {3, 0, 0}, {4, 0, 0},
 	{5, 0, 0}, {5, 1, 0}, {6, 0, 0}, {6, 1, 0},
-	{7, 0, 0}, {7, 1, 0}, {8, 0, 0}, {8, 1, 0}, {9, 1, 0},
+	{7, 0, 0}, {7, 1, 0}, {8, 0, 0}, {8, 1, 0}, {9, 1, 0}, {10, 0, 0}, {10, 1, 0},
 }
 
 func runSeq(seq []choice, stats map[string]int) (s *lsys) {
@@ -687,8 +713,10 @@ func cmdLogModel(args []string) int {
 					c = choice{7, r.Intn(2), 0}
 				case k < 98:
 					c = choice{8, r.Intn(3), 0}
-				default:
+				case k < 99:
 					c = choice{9, r.Intn(4), 0}
+				default:
+					c = choice{10, r.Intn(2), 0}
 				}
 				if s.do(c) {
 					s.check()
